@@ -811,8 +811,15 @@ func (c *EvalCtx) typeExpr(e ast.Expr) types.Type {
 			return types.NewPointer(t)
 		}
 	case *ast.ArrayType:
-		if t := c.typeExpr(e.Elt); t != nil && e.Len == nil {
-			return types.NewSlice(t)
+		if t := c.typeExpr(e.Elt); t != nil {
+			if e.Len == nil {
+				return types.NewSlice(t)
+			}
+			if bl, ok := e.Len.(*ast.BasicLit); ok {
+				if n, err := strconv.ParseInt(bl.Value, 10, 64); err == nil {
+					return types.NewArray(t, n)
+				}
+			}
 		}
 	case *ast.ParenExpr:
 		return c.typeExpr(e.X)
@@ -975,6 +982,18 @@ func (c *EvalCtx) call(e *ast.CallExpr) tv {
 				c.wf.facts = append(c.wf.facts, p.Implies(p.Eq(ex.dynType(x), ex.typeID(t)), p.Lt(x, c.st.heapTop)))
 			}
 			return tv{ex.reifyPtr(x, t), t}
+		case "unbox":
+			// unbox(x, T): the value held by interface x, viewed as the non-pointer type T (meaningful where typeIs(x, T))
+			x := c.asTerm(c.eval(e.Args[0]))
+			t := c.typeExpr(e.Args[1])
+			if t == nil {
+				c.errf("unbox: unknown type")
+			}
+			if bi, isBox := ex.boxes[x]; isBox && types.Identical(bi.t, t) {
+				return tv{bi.v, t}
+			}
+			f := p.Func("unbox:"+shortTypeName(t), []*Sort{IntSort}, ex.tm.SortOf(t))
+			return tv{p.App(f, x), t}
 		case "typeIs":
 			// typeIs(x, T): dynamic type of interface value x is T
 			x := c.asTerm(c.eval(e.Args[0]))
